@@ -363,6 +363,15 @@ def Agg.step : Agg → Op → Agg × R
   | .bag b, op => let (b', r) := b.step op; (.bag b', r)
   | .set s, op => let (s', r) := s.step op; (.set s', r)
 
+/-- `x in container` (`__contains__`: `value is not None and value in self._container`): python's membership test on
+the stored elements — `==`, i.e. equal keys; an unset ARRAY slot (`None`) matches nothing.  Meaningful for the runtime
+only when the regenerated `membershipDefined` holds. -/
+def Agg.contains : Agg → Val → Bool
+  | .arr a, x => decide (some x.key ∈ a.cells.map (Option.map Val.key))
+  | .lst l, x => decide (x.key ∈ l.cells.map Val.key)
+  | .bag b, x => decide (x.key ∈ b.cells.map Val.key)
+  | .set s, x => decide (x.key ∈ s.cells.map Val.key)
+
 /-- run a history; the answers in order -/
 def Agg.run : Agg → List Op → List Ans
   | _, [] => []
